@@ -20,7 +20,7 @@ class Boom(Exception):
     pass
 
 
-def run_case(limit, period, arrivals, duration):
+def run_case(limit, period, arrivals, duration, hops=0):
     per = period.total_seconds() if isinstance(period, timedelta) else float(period)
 
     async def main(loop):
@@ -38,6 +38,8 @@ def run_case(limit, period, arrivals, duration):
 
         async def caller(i, at):
             await asyncio.sleep(at)
+            for _ in range(hops):          # the call is made a few loop turns after the instant was reached (same virtual time):
+                await asyncio.sleep(0)     # its first step then falls between the wake-ups of calls already queued
             arrived = loop.time()
             arrival_seq.append(i)
             try:
@@ -84,14 +86,24 @@ def search():
     n = 0
     patterns = [[0.0] * k for k in range(1, 7)] + [[0, 0.1, 0.2, 0.3, 0.4, 0.5], [0, 0, 1.0, 1.0, 1.0, 2.0],
                                                    [0, 0.999, 1.0, 1.001, 2.0], [0, 0.5, 0.5, 1.5, 1.5, 1.5, 3.0]]
-    for limit in (1, 2, 3):
+    # bursts larger than the limit followed by arrivals exactly on a window boundary (queued calls and a newcomer meet at the
+    # instant several window entries expire), and random patterns on a dyadic grid (all instants exact floats)
+    base_patterns = list(patterns)
+    import random
+    rng = random.Random(int(os.environ.get("VERIF_SEED", "0") or 0))
+    patterns = patterns + [[0, 0, 0, 0.25, 0.25, 0.25, 0.5, 1.0], [0, 0, 0, 0, 0, 1.0], [0, 0, 0, 0, 1.0, 1.0, 1.0],
+                           [0, 0, 0.5, 0.5, 0.5, 1.0, 1.0, 1.5], [0, 0, 0, 0, 0, 0, 1.0, 2.0, 2.0]] + \
+        [sorted(rng.choice((0, 0.25, 0.5, 1.0, 1.0, 1.25, 2.0, 2.0, 3.0)) for _ in range(rng.randint(5, 9)))
+         for _ in range(int(os.environ.get("C15_RANDOM", "12")))]
+    for limit in (1, 2, 3, 4):
         for period in (1.0, 0.25, 2, timedelta(seconds=1), timedelta(milliseconds=1500), timedelta(days=1, microseconds=5)):
             for arrivals in patterns:
                 for duration in (0, 0.3, 1.7):
-                    n += 1
-                    p = run_case(limit, period, arrivals, duration)
-                    if p:
-                        return n, dict(limit=limit, period=str(period), arrivals=arrivals, duration=duration, problem=p)
+                    for hops in ((0,) if arrivals in base_patterns else (0, 1, 2, 3, 4)):
+                        n += 1
+                        p = run_case(limit, period, arrivals, duration, hops)
+                        if p:
+                            return n, dict(limit=limit, period=str(period), arrivals=arrivals, duration=duration, hops=hops, problem=p)
     return n, None
 
 
